@@ -21,6 +21,12 @@ func Dispatch(env *Env, kind string, payload json.RawMessage) (interface{}, erro
 			return nil, err
 		}
 		return RunE2(env, &j), nil
+	case "c03":
+		var j C03Job
+		if err := json.Unmarshal(payload, &j); err != nil {
+			return nil, err
+		}
+		return RunC03(env, &j), nil
 	case "e3":
 		var j E3Job
 		if err := json.Unmarshal(payload, &j); err != nil {
